@@ -69,7 +69,7 @@ def scenarios(rnd, n):
     return out
 
 
-def expected(scns, ck, cfg_invariants=INVARIANTS):
+def expected(scns, ck, cfg_invariants=INVARIANTS, emit=True):
     parts = common.chunks(scns, common.NCPU)
     cfg = "SPECIFICATION Spec\n" + "".join("INVARIANT %s\n" % i for i in cfg_invariants) + "INVARIANT Emit\nCHECK_DEADLOCK FALSE\n"
 
@@ -78,7 +78,7 @@ def expected(scns, ck, cfg_invariants=INVARIANTS):
         p = os.path.join(wd, "scn.json")
         with open(p, "w") as f:
             json.dump([{k: v for k, v in s.items() if k != "shape"} for s in part], f)
-        return common.run_tlc("RunSim", cfg, workers=1, env={"SCN": p, "EMIT": "1"}, workdir=wd)
+        return common.run_tlc("RunSim", cfg, workers=1, env={"SCN": p, "EMIT": "1" if emit else "0"}, workdir=wd)
     exp, bad = {}, []
     with cf.ThreadPoolExecutor(max_workers=common.NCPU) as ex:
         for r in ex.map(one, parts):
@@ -189,6 +189,20 @@ def family(ck, pid, scns):
             ck.violation(pid + ".runsim_levels", s["shape"] + " :: levels differ from the Euler integration of the model",
                          {"runsim": s, "expected": e, "observed": o["rows"]})
         ck.nontrivial(["runsim", s["ctl"], s["rules"], s["env"], s["init"], s["st0"], s["Rs"]])
+    return n
+
+
+def free_environment(ck, pid, rnd, n, steps):
+    """M only: TLC itself chooses the flows of every hydraulic interval (6 or 12 choices per interval), i.e. it explores EVERY
+    evolution of the tank level under the scenario's controls and rules, and checks the invariants in every state."""
+    scns = scenarios(rnd, n)
+    for s in scns:
+        s["env"] = []
+        s["steps"] = steps
+    exp, bad = expected(scns, ck, emit=False)
+    for b in bad:
+        ck.violation(pid + ".runsim_model", "RunSim.tla invariant violated under a free environment", {"tlc": b})
+    ck.count("runsim_free_environment_scenarios", n)
     return n
 
 
